@@ -35,7 +35,7 @@ func NewH264Depacketizer(meta *codec.VideoMeta, w codec.FrameWriter) Depacketize
 
 func (h264dp *h264Depacketizer) Depacketize(packet *Packet) (err error) {
 	payload := packet.Payload()
-	if len(payload) < 3 {
+	if len(payload) < 1 {
 		return
 	}
 
@@ -45,6 +45,10 @@ func (h264dp *h264Depacketizer) Depacketize(packet *Packet) (err error) {
 	// |F|NRI|  Type   |
 	// +---------------+
 	naluType := payload[0] & h264.NalTypeBitmask
+	if naluType >= h264.NalStapaInRtp && len(payload) < 3 {
+		// too short for an aggregation or fragmentation packet
+		return
+	}
 
 	switch {
 	case naluType < h264.NalStapaInRtp:
